@@ -18,6 +18,7 @@ into render.py's HTML templates: display name, port cells, metadata lines, colou
 """
 from __future__ import annotations
 
+import html as _html
 import re
 
 
@@ -264,6 +265,12 @@ def parse_label(html: str):
         meta = data[len("<BR/><BR/>") :].split("<BR/>")
     else:
         raise DotError("unexpected text after the display name")
+    # text inside an HTML-like label: "<", ">" must appear as entities (a raw one is markup, and a raw "&" that does
+    # not start an entity is an error for Graphviz' label parser)
+    for txt in [name, *meta]:
+        if "<" in txt or ">" in txt or re.search(r"&(?!(?:[A-Za-z][A-Za-z0-9]*|#[0-9]+|#x[0-9A-Fa-f]+);)", txt):
+            raise DotError("label text is not escaped: " + txt[:60])
+    name, meta = _html.unescape(name), [_html.unescape(x) for x in meta]
     return {
         "name": name,
         "in": _cells(html[: mn.start()]),
